@@ -908,7 +908,9 @@ pub fn run(cfg: &Cfg) -> Outcome {
     o.min_evaluations = 200;
     o.min_classes = 40;
     o.extra.insert("oparse_records".into(), json!(path.display().to_string()));
-    if stores < 50 {
+    if cfg.only_case.is_some() {
+        // replay of a single scenario: no floors
+    } else if stores < 50 {
         o.inconclusive = Some(format!("only {} C-STORE requests could be sent", stores));
     } else if watchdogs * 5 > n {
         o.inconclusive = Some(format!("{} scenarios hit a watchdog", watchdogs));
